@@ -31,6 +31,15 @@ CORPUS = [
      "gates": [0], "perturb": {}, "seed": 2, "timeout": 20, "settle": 6},
 ]
 
+CORPUS.append(
+    # D18 witness (fixed 8703212): executor-level threads_per_core = 2 under max_cores = 2: the two calls must not overlap
+    {"executor": {"backend": "slurm_allocation", "hostname_localhost": True, "block_allocation": False, "max_cores": 2,
+                  "disable_dependencies": True, "resource_dict": {"threads_per_core": 2}},
+     "calls": [{"base": 1, "gate": 0, "args": [], "kwargs": {}}, {"base": 10, "args": [], "kwargs": {}}],
+     "script": [{"c": "submit"}, {"c": "submit"}, {"c": "wait_enter", "i": 0}, {"c": "sleep", "ms": 900}, {"c": "release", "g": 0},
+                {"c": "shutdown", "wait": True, "cancel": False}],
+     "gates": [0], "perturb": {}, "seed": 5, "timeout": 20, "settle": 6})
+
 REQUIRED = ["dGet", "dLaunch", "dPrune", "dAck", "wSend", "wFinish"]
 
 
